@@ -123,3 +123,33 @@ package webp
 //@   loop 3: invariant 0 <= x && off == (y-b.Min.Y)*rgba.Stride + 3 + 4*x && b.Min.Y <= y && y < b.Max.Y
 //@   index nrgba.Pix: assert b.Min.Y <= y && y < b.Max.Y && idx - (y-b.Min.Y)*nrgba.Stride >= 0 && idx - (y-b.Min.Y)*nrgba.Stride < 4*w && (idx - (y-b.Min.Y)*nrgba.Stride) % 4 == 3
 //@   index rgba.Pix: assert b.Min.Y <= y && y < b.Max.Y && idx - (y-b.Min.Y)*rgba.Stride >= 0 && idx - (y-b.Min.Y)*rgba.Stride < 4*w && (idx - (y-b.Min.Y)*rgba.Stride) % 4 == 3
+//
+// ---- C02 / C15: the container written by Encode ----
+//
+//@ pure func le32w(i int) uint32 = uint32(wlog(i)) | uint32(wlog(i+1))<<8 | uint32(wlog(i+2))<<16 | uint32(wlog(i+3))<<24
+//@ pure func padLen(n int) int = n + (n & 1)
+//@ pure func chunkLen(n int) int = n > 0 ? 8 + n + (n & 1) : 0
+//
+// writeRIFFExtended itself carries no contract: it assembles the file in one
+// buffer at symbolic running offsets, and its obligations do not discharge in
+// time on any installed solver (see DESIGN.md, limits). The mux package's
+// assembleExtended, which writes the same layout, is under contract.
+//
+//@ func writeRIFFSimple
+//@   property C02
+//@   requires w != nil && len(bitstream) <= 0x20000000
+//@   modifies nothing
+//@   ensures result == nil ==> le32w(old(wlen())) == container.FourCCRIFF && le32w(old(wlen()) + 8) == container.FourCCWEBP && le32w(old(wlen()) + 12) == fourcc
+//@   ensures result == nil ==> int(le32w(old(wlen()) + 4)) == wlen() - old(wlen()) - 8 && (wlen() - old(wlen())) % 2 == 0
+//@   ensures result == nil ==> int(le32w(old(wlen()) + 16)) == len(bitstream) && wlen() - old(wlen()) == 20 + padLen(len(bitstream))
+//@   ensures result == nil ==> forall k int :: 0 <= k && k < len(bitstream) ==> wlog(old(wlen()) + 20 + k) == bitstream[k]
+//
+// The simple form is chosen only when nothing needs the extended header.
+//@ func writeRIFF
+//@   property C02 C15
+//@   requires w != nil
+//@   modifies *
+//@   abstract writeRIFFSimple, writeRIFFExtended
+//@   callsite writeRIFFSimple: assert len(alphaData) == 0 && (opts == nil || (len(opts.ICC) == 0 && len(opts.EXIF) == 0 && len(opts.XMP) == 0))
+//@   callsite writeRIFFExtended: assert arg1 == fourcc && arg2 == bitstream && arg3 == alphaData && arg4 == width && arg5 == height
+//@   callsite writeRIFFExtended: assert opts != nil ==> arg6 == opts.ICC && arg7 == opts.EXIF && arg8 == opts.XMP
